@@ -372,6 +372,9 @@ def tasks_for(tier, seed):
     n = 150 if tier == "quick" else 6000
     k_atoms = 6 if tier == "quick" else 8
     # the degenerate members first: nothing in :init, nothing in the goal
+    # a problem that declares no object at all: every individual is the domain constant (the :objects section stays empty)
+    tasks.append({"atoms": ["(p k)", "(ob k)", "(r)"], "fluents": ["(f k)", "(g)"], "goal": [["p", "k"], [">=", ["f", "k"], "1"]], "objects": {}})
+    tasks.append({"atoms": ["(r)"], "fluents": [], "goal": [], "objects": {}})
     tasks.append({"atoms": [], "fluents": [], "goal": [], "objects": OBJECT_SETS[0]})
     tasks.append({"atoms": ["(r)"], "fluents": [], "goal": [], "objects": OBJECT_SETS[0]})
     tasks.append({"atoms": [], "fluents": ["(g)"], "goal": GOALS[3], "objects": OBJECT_SETS[0]})
